@@ -207,14 +207,20 @@ def addPairs (l : HList) : List Pair → Res Unit
     | (l', .ok _) => addPairs l' t
     | r => r
 
+/-- the positional part of `extend` -/
+def extendHead (l : HList) : Option Arg → Res Unit
+  | none => (l, .ok ())
+  | some a => addPairs l (iterMultiItems a)
+
+/-- continue with `f` when the first part succeeded -/
+def andThen (r : Res Unit) (f : HList → Res Unit) : Res Unit :=
+  match r with
+  | (l', .ok _) => f l'
+  | (l', .error e) => (l', .error e)
+
 /-- `Headers.extend(arg, **kwargs)` -/
 def extend (l : HList) (arg : Option Arg) (kw : MapArg) : Res Unit :=
-  let r : Res Unit := match arg with
-    | none => (l, .ok ())
-    | some a => addPairs l (iterMultiItems a)
-  match r with
-  | (l', .ok _) => addPairs l' (mapItems kw)
-  | r => r
+  andThen (extendHead l arg) (fun l' => addPairs l' (mapItems kw))
 
 /-- `for key, value in pairs: self.set(key, value)` -/
 def setPairs (l : HList) : List Pair → Res Unit
@@ -250,17 +256,17 @@ def multiGetlist (m : List (Str × List Str)) (k : Str) : List Str :=
   | some kv => kv.2
   | none => []
 
+/-- the positional part of `update` -/
+def updateHead (l : HList) : Option Arg → Res Unit
+  | none => (l, .ok ())
+  | some (.headers h) => updateKeys (getlist h) l (keys h false)
+  | some (.multi m) => updateKeys (multiGetlist m) l (m.map (·.1))
+  | some (.mapping m) => updateMap l m
+  | some (.pairs ps) => setPairs l ps
+
 /-- `Headers.update(arg, **kwargs)` -/
 def update (l : HList) (arg : Option Arg) (kw : MapArg) : Res Unit :=
-  let r : Res Unit := match arg with
-    | none => (l, .ok ())
-    | some (.headers h) => updateKeys (getlist h) l (keys h false)
-    | some (.multi m) => updateKeys (multiGetlist m) l (m.map (·.1))
-    | some (.mapping m) => updateMap l m
-    | some (.pairs ps) => setPairs l ps
-  match r with
-  | (l', .ok _) => updateMap l' kw
-  | r => r
+  andThen (updateHead l arg) (fun l' => updateMap l' kw)
 
 /-- `Headers.__setitem__(int, (k, v))` -/
 def setIdx (l : HList) (i : Int) (p : Pair) : Res Unit :=
